@@ -133,15 +133,63 @@ def _check(case):
         got = _norm(text)
     except SyntaxError:
         return {'observed': f'{src!r} is displayed as {text!r}, which is not Python', 'required': 'reads back as the same expression',
-                'class': 'unparsable:' + _shape(src), 'short_tuple': _short_tuple(src)}
+                'class': 'unparsable:' + _shape(src), 'regex_redisplay': False, **_finding_flags(src)}
     want = _norm(src)
     if got != want:
         # listed findings, recognised by "the disagreement disappears once that sub-expression is replaced"
-        flags = {'float_inf': _float_inf(src), 'slice_tuple_bound': _slice_tuple(src), 'regex_redisplay': _regex_redisplay(src)}
+        flags = _finding_flags(src)
         return {'observed': f'{src!r} is displayed as {text!r}', 'required': 'reads back as the same expression',
-                'class': 'meaning:' + _shape(src) + ''.join('+' + k for k, v in flags.items() if v), 'shape': _shape(src),
-                'short_tuple': _short_tuple(src), **flags}
+                'class': 'meaning:' + _shape(src) + ''.join('+' + k for k, v in flags.items() if v and k != 'short_tuple'), 'shape': _shape(src),
+                'regex_redisplay': False, **flags}
     return None
+
+
+class _Pad(ast.NodeTransformer):
+    def visit_Tuple(self, node):
+        self.generic_visit(node)
+        while len(node.elts) == 1:
+            node.elts.append(ast.Name(id='pad_', ctx=ast.Load()))
+        return node
+
+
+class _NoInf(ast.NodeTransformer):
+    def visit_Constant(self, node):
+        return ast.Constant(value=1.5) if _is_inf(node) else node
+
+
+class _NoSliceTuple(ast.NodeTransformer):
+    def visit_Slice(self, node):
+        self.generic_visit(node)
+        for f in ('lower', 'upper', 'step'):
+            if isinstance(getattr(node, f), ast.Tuple):
+                setattr(node, f, ast.Name(id='bound_', ctx=ast.Load()))
+        return node
+
+
+def _finding_flags(src):
+    """which listed findings the disagreement on `src` consists of: the features present in the expression, such that the disagreement
+    disappears once all of them are replaced by something harmless - and is there again when only that one is put back"""
+    feats = {'short_tuple': (lambda n: isinstance(n, ast.Tuple) and len(n.elts) == 1, _Pad), 'float_inf': (_is_inf, _NoInf),
+             'slice_tuple_bound': (_is_slice_tuple, _NoSliceTuple)}
+    out = {k: False for k in feats}
+    t0 = ast.parse(src, mode='eval').body
+    present = [k for k, (pred, _) in feats.items() if any(pred(n) for n in ast.walk(t0))]
+
+    def ok_without(keys):
+        t = ast.parse(src, mode='eval').body
+        for k in keys:
+            t = feats[k][1]().visit(t)
+        neutral = ast.unparse(ast.fix_missing_locations(t))
+        try:
+            text, r = _text(neutral)
+            return _norm(text) == _norm(neutral)
+        except Exception:     # noqa
+            return False
+    if present and ok_without(present):
+        for k in present:
+            if len(present) == 1 or not ok_without([p for p in present if p != k]):
+                out[k] = True
+    return out
 
 
 def _short_tuple(src):
@@ -340,6 +388,8 @@ PATTERN: Final = re.compile('a+b', flags=re.I)
 PATTERN2: Final = re.compile(flags=re.M, pattern='^x')
 MAPPING: Final = {'key': ['v', 1], 2: ('t',  'u')}
 TEXT: Final = 'T'
+NBSP: Final = '\xa0'
+BLANKS: Final = [' ', '\xa0', '\t', 'a b', 'two\xa0words']
 class K:
     LEVELS: Final = ['str', 'bytes']
     V = TypeVar('V', 'K', int)
@@ -389,11 +439,80 @@ def _check_consts(case):
     return fails or None
 
 
+CLASS_MODULE = '''\
+from ext import Base, Other as Alias, pkg
+from typing import Generic, TypeVar, Dict, List
+import typing as t
+T = TypeVar('T')
+class Mixin:
+    "doc"
+class Second:
+    "doc"
+class Base(Base, Mixin):
+    "an external base imported under the name of the class itself"
+class Other(Mixin, Generic[T], Alias):
+    "doc"
+class Dotted(pkg.mod.Klass, Second, Mixin):
+    "doc"
+class Gen(Dict[str, List['Mixin']], t.Generic[T]):
+    "doc"
+class Three(Mixin, Second, Base):
+    "doc"
+class Outer:
+    Key = t.Union[str, bytes]
+    class Inner(Dict[Key, int], Mixin):
+        "doc"
+'''
+
+
+def _class_cases(tier, seed):
+    yield {'classes': CLASS_MODULE}
+
+
+def _check_class_sigs(case):
+    """the base list shown in the header of a class page is the base list that was written (string parts as written or unquoted)"""
+    from replay import fixtures, c14
+    from pydoctor.templatewriter import pages
+    from pydoctor.stanutils import flatten_text
+    from pydoctor import model
+    system = fixtures.build_system([('cs', case['classes'], False)])
+    tree = ast.parse(case['classes'])
+    fails = []
+
+    def classes(scope, body):
+        for st in body:
+            if isinstance(st, ast.ClassDef):
+                yield f'{scope}.{st.name}', st
+                yield from classes(f'{scope}.{st.name}', st.body)
+    for name, node in classes('cs', tree.body):
+        o = system.allobjects.get(name)
+        if not isinstance(o, model.Class):
+            fails.append({'observed': f'{name} is not documented as a class', 'required': 'a class', 'class': 'classsig-missing'})
+            continue
+        shown = ''.join(flatten_text(x) if not isinstance(x, str) else x for x in pages.format_class_signature(o))
+        want = [ast.dump(ast.parse(ast.unparse(b), mode='eval').body) for b in node.bases]
+        want_unquoted = [ast.dump(ast.parse(c14._unstring_src(b), mode='eval').body) for b in node.bases]
+        try:
+            got = [ast.dump(a) for a in ast.parse('f' + (shown or '()'), mode='eval').body.args]
+        except SyntaxError:
+            fails.append({'observed': f'class {name}({", ".join(ast.unparse(b) for b in node.bases)}) is displayed as {shown!r}, which is not Python', 'required': 'the bases as written',
+                          'class': 'classsig-unparsable'})
+            continue
+        if got != want and got != want_unquoted:
+            fails.append({'observed': f'class {name}({", ".join(ast.unparse(b) for b in node.bases)}) is displayed as {name.split(".")[-1]}{shown}', 'required': 'the bases as written',
+                          'class': 'classsig-meaning'})
+    return fails or None
+
+
 def N_norm(t):
     return ast.parse(ast.unparse(t), mode='eval').body
 
 
 HARNESS = {
+    'pydoctor/templatewriter/pages/__init__.py:format_class_signature': {'cases': _class_cases, 'check': _check_class_sigs,
+        'covers': ['pydoctor/model.py:compute_mro'],
+        'bound': 'one module with 9 classes (an external base imported under the class name, generic and dotted bases, string parts, a nested class naming '
+                 'attributes of the enclosing class)'},
     'pydoctor/epydoc2stan.py:format_constant_value': {'cases': _const_cases, 'check': _check_consts,
         'covers': ['pydoctor/astbuilder.py:TypeAliasVisitorExt.visit_Assign'],
         'bound': 'one module with 17 constants, type variables and type aliases (strings inside TypeVar calls, aliases with string parts, '
